@@ -37,7 +37,10 @@ def main(argv=None):
         if args.replay:
             with open(args.replay) as f:
                 rp = json.load(f)
-            viols = mod.replay(rp['family'], rp['scene'])
+            try:
+                viols = mod.replay(rp['family'], rp['scene'])
+            except lib.ConstructionFailed as cf:
+                viols = [core.construction_viol(args.prop, rp['family'] or '?', rp['scene'], cf)]
             for v in viols:
                 print('VIOLATION property=%s replay=%s' % (args.prop, args.replay))
                 print('  signature: %s  %s' % (v.sig, v.msg))
